@@ -95,6 +95,7 @@ const PROBES: &[&str] = &[
     "print(\"{} {} {}\", 1.5, [1, \"a\"], ja); print(\"{}\"); print(\"{} {}\", 1); [-(-5), -(2.5), !ja, !(1 < 2)]",
     "[type(1), type(1.5), type(\"a\"), type([1]), type(ja), type(functie() { 1 })]",
     "float(\"abc\")",
+    "print(\"{} {}\", -0.0, 0.0); [string(-0.0), string(0.0)]",
     // error paths with several equally good candidates (repeated parameter names, undefined names next
     // to declared names that differ in capitalisation only): whichever is reported, it is always the same
     "functie f(a, b, c, a, b, c) { [a, b, c] } f(1, 2, 3, 4, 5, 6)",
@@ -151,14 +152,20 @@ pub fn batch(seed: u64, tier: Tier) -> &'static Batch {
 fn make_program(seed: u64, i: usize) -> String {
     if i % 5 == 4 {
         PROBES[(i / 5) % PROBES.len()].to_string()
-    } else if i % 150 == 27 {
+    } else if i % 100 == 27 {
         // very long texts: counters of the compiler and the symbol table pass 16-bit boundaries
-        // (66 000 block-scoped declarations whose slot is re-used; 66 000 statements; 70 000 bytes of
+        // (66 000 block-scoped declarations whose slot is re-used; 12 000 statements = 120 000 bytes of
         // straight-line code) - the documented limits (65 535 constants, locals, jump distance) are not
         // exceeded
-        match (i / 150) % 2 {
+        match (i / 100) % 3 {
             0 => format!("{}stel z = 5; z", "{ stel a = 1; } ".repeat(66_000)),
-            _ => format!("stel t = 0; {}t", "t = t + 1; ".repeat(12_000)),
+            1 => format!("stel t = 0; {}t", "t = t + 1; ".repeat(12_000)),
+            _ => {
+                // the largest call the compiler accepts: 255 parameters and arguments
+                let ps: Vec<String> = (0..255).map(|k| format!("a{}", k)).collect();
+                let xs: Vec<String> = (0..255).map(|k| if k % 50 == 7 { format!("string({})", k) } else { k.to_string() }).collect();
+                format!("functie f({}) {{ [a0, a254, a100, a7] }}; f({})", ps.join(", "), xs.join(", "))
+            }
         }
     } else if i % 50 == 17 {
         // deep nesting (native recursion in the parser, the compiler, the collector and the renderer:
@@ -463,7 +470,7 @@ pub fn run_threads(spec: &ThreadsSpec) -> ThreadsRun {
                         runner::begin_run(&plan, eval_id, tid, Some(sh.sched.clone()));
                         alloc::set_mode(plan.alloc_mode);
                         let r = catch_unwind(AssertUnwindSafe(|| runner::eval_text(src, Some((tid * 7 + pos) as u64))));
-                        alloc::set_mode(alloc::PLAIN);
+                        alloc::reset_mode();
                         let (res, pending) = runner::finish_run_defer(r, eval_id);
                         match pending {
                             Some(p) => {
